@@ -99,6 +99,15 @@ def rrs_hdap(opcode: int, radio_id: int, reliable: bool) -> bytes:
     return bytes([0x11 | (0x80 if reliable else 0)]) + checked + bytes([hdap_checksum(checked), 0x03])
 
 
+def tmp_hdap(rnd, nchars: int) -> bytes:
+    """a Hytera text message (TMP SendPrivateMessage) of `nchars` UTF-16 characters, encoded by hand:
+    | 0x09 | 0x80 0xa1 | payload length (2, big endian) | request id (4) | destination 10.x (4) | source 10.x (4) | text UTF-16-LE | checksum | 0x03 |"""
+    text = "".join(rnd.choice("ABCDEFGHIJKLMNOPQRSTUVWXYZ 0123456789") for _ in range(nchars)).encode("utf-16-le")
+    payload = rnd.getrandbits(32).to_bytes(4, "big") + bytes([0x0A]) + rnd.getrandbits(24).to_bytes(3, "big") + bytes([0x0A]) + rnd.getrandbits(24).to_bytes(3, "big") + text
+    checked = bytes([0x80, 0xA1]) + len(payload).to_bytes(2, "big") + payload
+    return bytes([0x09]) + checked + bytes([hdap_checksum(checked), 0x03])
+
+
 def hstrp(type_byte: int, sn: int, options: bytes = b"", payload: bytes = b"", version: int = 0) -> bytes:
     return b"2B" + bytes([version, type_byte]) + sn.to_bytes(2, "big") + options + payload
 
@@ -143,7 +152,12 @@ def build(cls, rnd, radios):
         # "if type=ack, payload is filled with service messages" (HSTRP doc): a registration / going-offline message riding on an ack
         d = hstrp(T_OPT | T_ACK, sn, opts(), rrs(0x03 if cls == "reg_on_ack" else 0x01), version)
     elif cls == "data_other":
-        d = hstrp(T_OPT, sn, opts(), bytes.fromhex(rnd.choice(HDAP_SAMPLES)), version)
+        if rnd.random() < 0.2:
+            # a text message of seeded length, up to what one UDP datagram carries (sizes around the usual MTU-derived limits included)
+            pl = tmp_hdap(rnd, rnd.choice([0, 1, 17, 100, 256, 700, 716, 717, 718, 719, 720, 728, 729, 730, 735, 1000, 2040, 4096, 16000, 32000]))
+        else:
+            pl = bytes.fromhex(rnd.choice(HDAP_SAMPLES))
+        d = hstrp(T_OPT, sn, opts(), pl, version)
     elif cls == "data_t0reg":
         d = hstrp(0x00, sn, b"", rrs(0x03), version)
     elif cls == "ack_connect":
